@@ -320,6 +320,10 @@ def np_index(arr, key):
     n_real = len(key) - n_ell
     if n_real > arr.ndim:
         raise RaiseSig(IndexError("too many indices for array"))
+    # numpy decides "are the advanced indices consecutive?" on the index AS WRITTEN: any slice or Ellipsis between two advanced
+    # (integer / list) entries separates them - also an Ellipsis that stands for zero axes (numpy mapping.c, PyArray_MapIterNew)
+    written_adv = [i for i, k in enumerate(key) if k is not Ellipsis and not isinstance(k, slice)]
+    written_adjacent = (not written_adv) or written_adv == list(range(written_adv[0], written_adv[-1] + 1))
     if n_ell:
         e = [i for i, k in enumerate(key) if k is Ellipsis][0]
         key = key[:e] + (slice(None),) * (arr.ndim - n_real) + key[e + 1:]
@@ -348,7 +352,7 @@ def np_index(arr, key):
             if not V.dims_equal(L, plans[ax][1].shape[0]):
                 raise OutOfSubset("several list indices whose lengths are not provably equal (broadcasting not modelled)")
         advpos = [ax for ax, p in enumerate(plans) if p[0] in ("list", "int")]
-        adjacent = advpos == list(range(advpos[0], advpos[-1] + 1))
+        adjacent = written_adjacent
         slice_axes = [ax for ax, p in enumerate(plans) if p[0] == "slice"]
         if adjacent:
             out = [("slice", ax) for ax in slice_axes if ax < advpos[0]] + [("adv",)] + [("slice", ax) for ax in slice_axes if ax > advpos[0]]
